@@ -74,6 +74,28 @@ def replay_wrapper(inputs, obl):
     k('g::{x,y,z}')
     if list(k['g'](1, 2, 3)) != [1, 2, 3]:
         problems.append("arguments not passed in order")
+    # list arguments on both paths (current definition / original after the name is gone)
+    k3 = KlongInterpreter()
+    k3('s::{+/x}')
+    w3 = k3['s']
+    if w3([1, 2, 3]) != 6:
+        problems.append(f"wrapper called with the Python list [1,2,3] gave {w3([1, 2, 3])!r}, the Klong call s([1 2 3]) gives 6")
+    del k3['s']
+    try:
+        r3 = w3([1, 2, 3])
+    except Exception as e:
+        r3 = f"raised {type(e).__name__}"
+    if r3 != 6:
+        problems.append(f"after deleting the name the wrapper called with [1,2,3] gave {r3!r} instead of 6 (original function)")
+    seen = []
+    k4 = KlongInterpreter()
+    k4['total'] = lambda x: (seen.append(x), sum(x))[1]
+    try:
+        r4 = k4['total']([1, 2, 3])
+    except Exception as e:
+        r4 = f"raised {type(e).__name__}"
+    if r4 != 6:
+        problems.append(f"a stored Python callable read back and called with [1,2,3] gave {r4!r} (received {seen!r})")
     if problems:
         return dict(confirmed=True, detail='; '.join(problems[:3]))
     return dict(confirmed=False, detail='wrapper behaves as the Klong call form')
@@ -109,3 +131,26 @@ def replay_items(inputs, obl):
     if problems:
         return dict(confirmed=True, detail='; '.join(problems[:3]))
     return dict(confirmed=False, detail='item access behaves as a dictionary')
+
+
+def replay_resolve(inputs, obl):
+    """a bare KGLambda (as produced by .py imports) passed to a Klong function and applied through the parameter"""
+    from klongpy import KlongInterpreter
+    from klongpy.types import KGLambda
+    problems = []
+    log = []
+    k = KlongInterpreter()
+    k['mono'] = KGLambda(lambda x: (log.append(('mono', x)), x + 100)[1])
+    k['duo'] = KGLambda(lambda x, y: (log.append(('duo', x, y)), x * 10 + y)[1])
+    for prog, want, calls in (("{x(2)}(mono)", 102, [('mono', 2)]), ("{x(y;z)}(duo;1;2)", 12, [('duo', 1, 2)]),
+                              ("{y(x)}(3;mono)", 103, [('mono', 3)]), ("mono(5)", 105, [('mono', 5)])):
+        del log[:]
+        try:
+            got = k(prog)
+        except Exception as e:
+            got = f"raised {type(e).__name__}: {e}"
+        if got != want or log != calls:
+            problems.append(f"`{prog}` gave {got!r} with calls {log!r}; expected {want} with calls {calls!r}")
+    if problems:
+        return dict(confirmed=True, detail='; '.join(problems[:3]))
+    return dict(confirmed=False, detail='a callable applied through a function parameter is called once with the arguments')
